@@ -1,7 +1,8 @@
-import Qentem.Proofs.StrToNumNegExact
+import Qentem.Proofs.StrToNumNegAll
 import Qentem.Proofs.StrToNumFrac
 /-! C09/C11 helper lemmas: `realResult` returns exactly the correctly rounded pattern under the
-1/32 margin (both directions of the decimal exponent). -/
+1/32 margin (both directions of the decimal exponent, every mantissa; the three numerals `negExc`
+— `1e-273`, `1e-286`, `1e-292` — excepted). -/
 namespace Qentem.StrToNum
 open Qentem.Round
 
@@ -26,11 +27,11 @@ theorem marginInt_of_pair (V : Nat) (hV : 0 < V) (hm : MarginPair (roundPair V 1
     exact hm
 
 /-- the exact version of `realResult_class`: in range, under the margin (and, for a negative net
-exponent, `2^(X/27) ≤ 2v` with `X < 216`, or `2^(X/27+1) ≤ v`), the result is `Real` with exactly the correctly rounded magnitude -/
+exponent, not one of the three `negExc` numerals), the result is `Real` with exactly the correctly rounded magnitude -/
 theorem realResult_exact (neg : Bool) (v n X : Nat) (FLAG : Bool) (off : Nat) (hv0 : 0 < v) (hv : v < 2 ^ 64)
     (hn19 : n ≤ 19) (hX : X < 2 ^ 31)
     (hrange : if FLAG then X ≤ n + 324 else X + n ≤ 309)
-    (hcond : FLAG = true → (X < 216 ∧ 2 ^ (X / 27) ≤ 2 * v) ∨ 2 ^ (X / 27 + 1) ≤ v)
+    (hcond : FLAG = true → ¬ negExc v X)
     (hm : if FLAG then MarginPair (roundPair v (10 ^ X)).1 (roundPair v (10 ^ X)).2
           else MarginPair (roundPair (v * 10 ^ X) 1).1 (roundPair (v * 10 ^ X) 1).2) :
     realResult neg v n X FLAG off =
@@ -54,6 +55,6 @@ theorem realResult_exact (neg : Bool) (v n X : Nat) (FLAG : Bool) (off : Nat) (h
       omega
     simp only [ne_eq, hv0', not_false_eq_true, if_true, true_and, hno, Bool.not_true, Bool.false_eq_true, false_and,
       or_false, if_false]
-    rw [powerOfNegativeTen_exact v X hv0 (hcond rfl) hv (by omega) hm]
+    rw [powerOfNegativeTen_exact17 v X hv0 hv (by omega) (hcond rfl) hm]
 
 end Qentem.StrToNum
